@@ -36,6 +36,8 @@ JFinal(r) ==
      \o (IF st[3] - st[4] # Cardinality(storeIds) THEN <<FV("C16", "keys added - keys deleted differs from the number of keys held (free-running)")>> ELSE <<>>)
      \o (IF st[7] - st[8] # r.s.used THEN <<FV("C16", "weight added - weight removed differs from the total weight used (free-running)")>> ELSE <<>>)
      \o (IF kwIds # storeIds \/ sumW # r.s.used THEN <<FV("C05", "charged ids / total weight do not match the held entries at quiescence (free-running)")>> ELSE <<>>)
+     \o (IF \E e \in Range(r.s.kw) : \E h \in Range(r.s.store) : h.k = e.k /\ h.id # e.id /\ e.id \notin storeIds
+         THEN <<FV("C07", "a held key has a second, older key id that is still charged: an accepted put replaced an entry that was present (free-running)")>> ELSE <<>>)
      \o (IF r.s.used < 0 THEN <<FV("C01", "total weight used is negative (free-running)")>> ELSE <<>>)
 
 Init == l = 1 /\ rep = [div |-> <<>>, verdicts |-> <<>>, steps |-> 0, runs |-> 0, unmodelled |-> {}, ndiv |-> 0, nverd |-> 0]
